@@ -22,7 +22,7 @@ CLAIMS = {
   level_text="Held (apart from recorded findings) on all message sizes, batches, heartbeats and single/double stream mutations explored for CURVE and NOISE_XX in both directions. Exploration.",
   level_note="Cryptographic strength is out of scope; a still-open engine holding an incomplete record after a mutation is not judged (indistinguishable from a slow link at engine level)."),
  "C19": dict(
-  technique="real-time trace-specification monitor over seeded heartbeat timelines + EgressBuffer differential model + raw-peer sessions",
+  technique="real-time trace-specification monitor over seeded heartbeat timelines (raw reference peer; second real engine under NULL/PLAIN/CURVE/NOISE_XX) + EgressBuffer differential model + raw-peer sessions",
   level_text="Held on every timeline explored (PING not early / not missing, close not early / not missing, one PONG with identical context, no heartbeat on v2), on every EgressBuffer history (whole chunks, FIFO, priority ahead) and on live/mute/traffic-only raw peers against a real ROUTER. Exploration.",
   level_note="Thresholds are judged outside a 1.5 ms band because the engine stamps activity with the real clock; io_uring sessions are covered under C20."),
  "C04": dict(
